@@ -331,6 +331,9 @@ pub fn run_c17(tier: &str, seed: u64) -> Outcome {
         o
     });
     o.merge(o2);
+    // the top-level flag stays false: only the (u8,u8) sub-space was enumerated completely
+    o.extra.insert("exhaustive_u8_subspace_completed".into(), o.exhaustive.into());
+    o.exhaustive = false;
     o.extra.insert("exhaustive_u8_nontrivial_pairs_counted_exactly".into(), exh_nt.into());
     o.extra.insert("exhaustive_scope".into(), "all 2304 (address,length) values of (u8,u8) incl. host bits, all 2304^2 ordered pairs, all bit indices 0..=255, all triples over lengths <= 4; the other 13 types are sampled".into());
     o
